@@ -32,7 +32,9 @@ type DecorCase struct {
 		Base, E, M, D int64
 		H, S, Ms      int64
 		Total, Cur    int64
+		Ops           []int64 `json:"ops"`
 	} `json:"c"`
+	Outs []int64 `json:"outs"`
 	Adds []struct {
 		Num int64 `json:"num"`
 		Den int64 `json:"den"`
@@ -111,6 +113,39 @@ func checkEwma(c *DecorCase) string {
 		bar.Abort(false)
 		p.Wait()
 		if msg != "" {
+			return msg
+		}
+	}
+	return ""
+}
+
+// checkMedian replays a window case on decor.NewMedian() and on the ETA decorator whose default average it is:
+// a sample of v seconds per item is one EwmaUpdate(1, v s); a reading is one Decor call with one item left.
+func checkMedian(c *DecorCase) string {
+	m := decor.NewMedian()
+	eta := decor.MovingAverageETA(decor.ET_STYLE_GO, nil, nil)
+	upd := eta.(decor.EwmaDecorator)
+	k := 0
+	for i, o := range c.C.Ops {
+		if o != 0 {
+			m.Add(float64(o))
+			upd.EwmaUpdate(1, time.Duration(o)*time.Second)
+			continue
+		}
+		if k >= len(c.Outs) {
+			return "specification has fewer readings than the case"
+		}
+		want := c.Outs[k]
+		k++
+		if got := m.Value(); got != float64(want) {
+			return fmt.Sprintf("reading %d (operation %d): NewMedian().Value() = %v, median of the last three samples is %d", k, i, got, want)
+		}
+		s, _ := eta.Decor(decor.Statistics{Total: 10, Current: 9})
+		d, err := time.ParseDuration(s)
+		if err != nil || d != time.Duration(want)*time.Second {
+			return fmt.Sprintf("reading %d (operation %d): ETA with one item left prints %q, median of the last three samples is %ds", k, i, s, want)
+		}
+		if msg := widthOK(eta, decor.Statistics{Total: 10, Current: 9}); msg != "" {
 			return msg
 		}
 	}
@@ -342,6 +377,8 @@ func TestDecorCases(t *testing.T) {
 				msg = checkTime(t, &c)
 			case "pct":
 				msg = checkPct(&c)
+			case "median":
+				msg = checkMedian(&c)
 			}
 		}()
 		if msg != "" {
